@@ -4,3 +4,4 @@ import SaphyrVerif.Model.Base64
 import SaphyrVerif.Spec.Scalars
 import SaphyrVerif.Model.PathMap
 import SaphyrVerif.Model.Tls
+import SaphyrVerif.Model.Locs
